@@ -66,7 +66,9 @@ fn gen_item_bytes(rng: &mut rand_chacha::ChaCha8Rng, ident: &str, id: u32, style
     while !no_float(&value) { value = gen_value(rng, 2); }
     let mut entries = vec![(Value::Text("digestID".into()), Value::Integer(id.into())), (Value::Text("random".into()), Value::Bytes((0..rng.gen_range(16..40)).map(|_| rng.gen()).collect())),
         (Value::Text("elementIdentifier".into()), Value::Text(ident.into())), (Value::Text("elementValue".into()), value.clone())];
-    if extra { entries.push((Value::Text(format!("x-unknown-{}", gen_text(rng, 4))), gen_value(rng, 0))); entries.push((Value::Text("zz".into()), Value::Bool(true))); }
+    if extra { entries.push((Value::Text(format!("x-unknown-{}", gen_text(rng, 4))), gen_value(rng, 0))); entries.push((Value::Text("zz".into()), Value::Bool(true)));
+        // unknown entries with LONG keys too (another issuer's extension names; every length class of a text head)
+        if rng.gen_bool(0.5) { let n = [24usize, 65, 100, 255, 256, 1000, 4000][rng.gen_range(0..7)]; entries.push((Value::Text("k".repeat(n)), Value::Integer(1.into()))); } }
     let mut out = vec![];
     nc_encode(&Value::Map(entries), rng, style, &mut out);
     (out, value)
@@ -133,7 +135,8 @@ pub fn run(ctx: &mut Ctx) {
         let mut ok = parsed.is_ok() && real.starts_with(&format!("reemit={} ", hex::encode(&wire)));
         if let Ok(t) = parsed {
             let mut cur = t;
-            for _ in 0..(if ctx.thorough { 10 } else { 3 }) { let b = cbor::to_vec(&cur).unwrap(); cur = cbor::from_slice(&b).unwrap(); ok &= cur.inner_bytes == inner; }
+            // (an item that cannot be read back after a cycle is the plainest loss: recorded, not a harness crash)
+            for _ in 0..(if ctx.thorough { 10 } else { 3 }) { let b = cbor::to_vec(&cur).unwrap(); match cbor::from_slice::<Tag24<IssuerSignedItem>>(&b) { Ok(c) => { cur = c; ok &= cur.inner_bytes == inner; } Err(_) => { ok = false; break; } } }
             // from_bytes keeps them too
             ok &= Tag24::<IssuerSignedItem>::from_bytes(inner.clone()).map(|t| t.inner_bytes == inner).unwrap_or(false);
         }
@@ -150,7 +153,7 @@ pub fn run(ctx: &mut Ctx) {
                 (Value::Text("elementIdentifier".into()), Value::Text(ident.clone())), (Value::Text("elementValue".into()), val), (Value::Text("zz-extra".into()), Value::Integer(1.into()))];
             let mut inner = vec![]; let st = rng.gen_range(1..16);
             nc_encode(&Value::Map(entries), &mut rng, st, &mut inner);
-            let t = Tag24::<IssuerSignedItem>::from_bytes(inner.clone()).unwrap();
+            let Ok(t) = Tag24::<IssuerSignedItem>::from_bytes(inner.clone()) else { ctx.emit.line("spec", "spec:item:accepted", "spec.eq rejected accepted".into(), "true".into(), serde_json::json!({"msg_hex": hex::encode(&inner)})); continue };
             held.push(inner);
             match m.as_mut() { None => m = Some(NonEmptyMap::new(ident, t)), Some(mm) => { mm.insert(ident, t); } }
         }
@@ -207,16 +210,17 @@ pub fn run(ctx: &mut Ctx) {
             let ident = format!("e{j}");
             let st = rng.gen_range(1..16);
             let (inner, _) = gen_item_bytes(&mut rng, &ident, j, st, j % 2 == 0);
-            let t = Tag24::<IssuerSignedItem>::from_bytes(inner.clone()).unwrap();
+            let Ok(t) = Tag24::<IssuerSignedItem>::from_bytes(inner.clone()) else { ctx.emit.line("spec", "spec:item:accepted", "spec.eq rejected accepted".into(), "true".into(), serde_json::json!({"msg_hex": hex::encode(&inner)})); continue };
             match em.as_mut() { None => em = Some(NonEmptyMap::new(ident.clone(), t)), Some(m) => { m.insert(ident.clone(), t); } }
             items.push((ident, inner));
         }
-        doc.namespaces = NonEmptyMap::new(NS.to_string(), em.unwrap());
+        let Some(em) = em else { continue };
+        doc.namespaces = NonEmptyMap::new(NS.to_string(), em);
         // storage cycles
         let mut cur = doc.clone();
         let mut stored_ok = true;
         for _ in 0..(if ctx.thorough { 8 } else { 3 }) {
-            cur = Document::parse(cur.stringify().unwrap()).unwrap();
+            cur = match Document::parse(cur.stringify().unwrap()) { Ok(d) => d, Err(_) => { stored_ok = false; break } };
             for (ident, inner) in &items { stored_ok &= cur.namespaces.get(NS).and_then(|m| m.get(ident)).map(|t| &t.inner_bytes == inner).unwrap_or(false); }
             let v: Value = cbor::into_value(cur.issuer_auth.clone()).unwrap();
             let a = match v { Value::Array(a) => a, Value::Tag(_, b) => match *b { Value::Array(a) => a, _ => vec![] }, _ => vec![] };
@@ -225,19 +229,21 @@ pub fn run(ctx: &mut Ctx) {
             stored_ok &= x5(&a) == x5(&arr);
         }
         ctx.emit.line("spec", "spec:document:storage-cycles", format!("spec.eq {} true", stored_ok), "true".into(), serde_json::json!({"session": s, "items": items.len()}));
+        if !stored_ok { continue; }
         // transfer
+        let lost = |ctx: &mut Ctx, what: &str| ctx.emit.line("spec", "spec:document:transfer", "spec.eq false true".into(), "true".into(), serde_json::json!({"session": s, "stored state does not load": what}));
         let docs = NonEmptyMap::new(MDL.to_string(), cur);
         let init = device::SessionManagerInit::initialise(docs, None, None).unwrap();
-        let init = device::SessionManagerInit::parse(init.stringify().unwrap()).unwrap();
+        let Ok(init) = device::SessionManagerInit::parse(init.stringify().unwrap()) else { lost(ctx, "SessionManagerInit"); continue };
         let (eng, qr) = init.qr_engagement().unwrap();
         let (_rdr, est, _) = reader::SessionManager::establish_session(qr, sess::simple_namespaces(&["e0"]), TrustAnchorRegistry::default()).unwrap();
         let (mut dev, _) = eng.process_session_establishment(cbor::from_slice(&est).unwrap(), TrustAnchorRegistry::default()).unwrap();
-        dev = device::SessionManager::parse(dev.stringify().unwrap()).unwrap();
+        dev = match device::SessionManager::parse(dev.stringify().unwrap()) { Ok(d) => d, Err(_) => { lost(ctx, "SessionManager"); continue } };
         let elems: Vec<String> = items.iter().map(|(i, _)| i.clone()).collect();
         let er: Vec<&str> = elems.iter().map(|s| s.as_str()).collect();
         let reqs = vec![ItemsRequest { doc_type: MDL.into(), namespaces: sess::simple_namespaces(&er), request_info: None }];
         dev.prepare_response(&reqs, sess::permit_all(&[MDL], &er));
-        dev = device::SessionManager::parse(dev.stringify().unwrap()).unwrap();
+        dev = match device::SessionManager::parse(dev.stringify().unwrap()) { Ok(d) => d, Err(_) => { lost(ctx, "SessionManager while signing"); continue } };
         while dev.get_next_signature_payload().is_some() { dev.submit_next_signature(vec![1; 64]).unwrap(); }
         let Some(msg) = dev.retrieve_response() else { continue };
         let sd: SessionData = cbor::from_slice(&msg).unwrap();
